@@ -39,6 +39,8 @@ type c12Case struct {
 	QuietMs int `json:"quiet_ms,omitempty"`
 	/* Brief: the shell ends as soon as it has become ready. */
 	Brief bool `json:"ends_at_once,omitempty"`
+	/* Listen: the -listen-address ("" means 127.0.0.1:0). */
+	Listen string `json:"listen_address,omitempty"`
 }
 
 func chunk(s string) string { return fmt.Sprintf("%x\r\n%s\r\n", len(s), s) }
@@ -48,7 +50,11 @@ const c12Wait = 30 * time.Second
 func c12Run(c c12Case, base string) (string, string) {
 	dir, _ := os.MkdirTemp(base, "run-")
 	defer os.RemoveAll(dir)
-	cmd := exec.Command(binPath("curlrevshell"), "-one-shell", "-listen-address", "127.0.0.1:0", "-tls-certificate-cache", filepath.Join(dir, "c", "cert.txtar"))
+	listen := "127.0.0.1:0"
+	if "" != c.Listen {
+		listen = c.Listen
+	}
+	cmd := exec.Command(binPath("curlrevshell"), "-one-shell", "-listen-address", listen, "-tls-certificate-cache", filepath.Join(dir, "c", "cert.txtar"))
 	cmd.Env = append(os.Environ(), "HOME="+dir, "CURLREVSHELL_LOG=")
 	p, err := ptyrun.Start(cmd)
 	if nil != err {
@@ -63,6 +69,9 @@ func c12Run(c c12Case, base string) (string, string) {
 		return fail("no-start", "the program did not start")
 	}
 	addr := lre.FindStringSubmatch(p.Output())[1]
+	/* (The observation has to work before anything is made of it.) */
+	atStart, procOK := listeningSockets(p.Cmd.Process.Pid)
+	procOK = procOK && 0 != len(atStart)
 	canConnect := func() bool {
 		cn, err := net.DialTimeout("tcp", addr, 5*time.Second)
 		if nil != err {
@@ -257,6 +266,19 @@ func c12Run(c c12Case, base string) (string, string) {
 		if !refused {
 			return fail("listener-still-open", "20 s after the ready notice the listen address still accepts connections")
 		}
+		/* Nor does the process keep any other listening socket (one per
+		address family, say): the kernel would go on accepting on it. */
+		var held []string
+		for deadline := time.Now().Add(20 * time.Second); procOK && time.Now().Before(deadline); time.Sleep(50 * time.Millisecond) {
+			var ok bool
+			if held, ok = listeningSockets(p.Cmd.Process.Pid); !ok || 0 == len(held) {
+				held = nil
+				break
+			}
+		}
+		if 0 != len(held) {
+			return fail("listener-still-open/another-socket", fmt.Sprintf("20 s after the ready notice the process still holds listening TCP sockets: %v (-listen-address %s)", held, listen))
+		}
 		/* The attached shell keeps working, both ways. */
 		p.Send("marker-line-after-close\r")
 		/* (/i sends its response header together with the first line.) */
@@ -421,6 +443,11 @@ func c12(r *ev.Result, tier string) {
 	}
 	/* Very many half-attached attempts before the shell. */
 	cases = append(cases, c12Case{Pre: []string{"many-half-out"}, Arrival: "in-out", Ending: "eof", Trigger: "line"})
+	/* Listening on every address of the machine, in each spelling. */
+	for _, l := range []string{"0.0.0.0:0", ":0", "[::]:0", "[::1]:0"} {
+		cases = append(cases, c12Case{Arrival: "io", Ending: "eof", Trigger: "line", Listen: l})
+		cases = append(cases, c12Case{Pre: []string{"half-out"}, Arrival: "in-out", Traffic: true, Ending: "close-both", Trigger: "ctrl-d", Listen: l})
+	}
 	/* A shell that ends the moment it is ready. */
 	for _, arr := range []string{"in-out", "out-in", "io"} {
 		for _, end := range []string{"eof", "close-both"} {
